@@ -69,7 +69,8 @@ FindGroupCohorts(B, nl, merge, singleChunks) ==
   LET pres == Present(B, nl)
       exact == ExactCohorts(B, nl)
   IN
-  IF Len(B) = 1 THEN [method |-> "blockwise", cohorts |-> {[chunks |-> {1}, labels |-> 0..(nl - 1)]}, failed |-> FALSE]
+  IF nl = 0 THEN [method |-> "map-reduce", cohorts |-> {}, failed |-> FALSE]      \* every label missing: no group, no cohort
+  ELSE IF Len(B) = 1 THEN [method |-> "blockwise", cohorts |-> {[chunks |-> {1}, labels |-> 0..(nl - 1)]}, failed |-> FALSE]
   ELSE IF pres = {} THEN [method |-> "map-reduce", cohorts |-> {}, failed |-> FALSE]
   ELSE IF \A l \in pres : Cardinality(ChunksOf(B, l)) = 1
        THEN [method |-> "blockwise", cohorts |-> exact, failed |-> FALSE]
